@@ -28,8 +28,8 @@ CHECKS = {
    text="From the transcript only, each party's own mask share per input wire is recovered as masked_input ^ input ^ XOR of the others' shares; over N executions per input value (256 quick / 2048 thorough) and role the number of ones must lie in a fixed interval. 128 canary input bits (and the own share vector) must not occur in any outgoing message as packed / bool-byte / decoded-bool run nor complemented. All probed global keys and all 128-bit own-share vectors are pairwise distinct.",
    note="Fixed thresholds (honest false-alarm < 1e-20 per wire); small biases and computational distinguishers are out of reach."),
  "C07": dict(level="fault_enumeration", ref="DESIGN.md §3 C07",
-   technique="runtime monitoring: offline checker over the recorded transcript (hash-set window scan for the probed global key and XOR sets of size 2 and 3), on honest runs and on every execution of the C03/C04 fault catalogues",
-   text="For every honest party T and execution the pooled transcript is scanned for delta_T (probe): the key at every byte offset in both byte orders, two windows XORing to it (every offset, mixed byte orders, linear time), and in honest 2-party runs three decoded 128-bit fields XORing to it. Honest runs cover n=2..4 with NOT gates and all roles; adversarial runs are the C03 and C04 catalogues incl. the cheater-continues variants.",
+   technique="runtime monitoring: offline checker over the recorded transcript (hash-set window scan for the probed global key and XOR sets of size 2 and 3), on honest runs and on every execution of the C03/C04 fault catalogues; plus a directed attack (corrupted party biases its own base-OT seeds through a tap so that OT-extension columns coincide) whose oracle is the attacker's own computation compared with the probed key",
+   text="For every honest party T and execution the pooled transcript is scanned for delta_T (probe): the key at every byte offset in both byte orders, two windows XORing to it (every offset, mixed byte orders, linear time), and in honest 2-party runs three decoded 128-bit fields XORing to it. Honest runs cover n=2..4 with NOT gates and all roles; adversarial runs are the C03 and C04 catalogues incl. the cheater-continues variants. Seed-collision probe: 2-party distributed preprocessing in which the corrupted party sends only honestly computed messages but chooses base-OT seeds with coinciding extension columns; candidates U[a]^U[b]^M[a]^M[b]^K[a]^K[b] (and ^ own key) must never equal the honest party's key.",
    note="Certifies only XOR sets of size <= 3 of byte windows / decoded fields; single leaked bits are out of reach. One known finding: the leaky-AND check opening reveals delta of a party that simultaneously aborts."),
  "C08": dict(level="fault_enumeration", ref="DESIGN.md §3 C08",
    technique="runtime monitoring with fault injection: adversarial channel rewrites/drops messages or crashes the peer; outcome, exact deadlock detection and counting allocator observed per execution (sharded sub-processes)",
